@@ -1,5 +1,5 @@
 SPECIFICATION Spec
-CONSTANT Depth = 7
+CONSTANT Depth = 8
 CONSTANT MaxAcq = 4
 CONSTRAINT Bound
 VIEW View
